@@ -1,3 +1,5 @@
+\* ModifyInstance of the reference properties of an id-keyed association instance (cross-namespace <-> single
+\* namespace), repaired design: every stored copy follows.  Must hold.
 SPECIFICATION Spec
 CONSTANTS
   LegacyBreak = FALSE
@@ -5,15 +7,15 @@ CONSTANTS
   NoShadow = FALSE
   NoPreCheck = FALSE
   XParU = {}
-  ModEnds = "off"
+  ModEnds = "fixed"
   ShallowSub = FALSE
-  IgnoreNs = TRUE
+  IgnoreNs = FALSE
   ModSharedPath = FALSE
   MaxMod = 0
-  NodeU <- NodeU4
+  NodeU <- NodeU5
   MaxAssoc = 2
-  CreateNs = {1}
-  ClsU = {"AB", "ABS", "AT", "AL"}
+  CreateNs = {1, 2}
+  ClsU = {"AL"}
   AcU <- AcSmall
   RcU <- RcSmall
   RlU <- RlSmall
